@@ -51,8 +51,8 @@ func VerifC16ProviderResults() {
 	}
 	// below the latest trusted height: hashed and compared with the next header
 	lb := &cmttypes.LightBlock{SignedHeader: &cmttypes.SignedHeader{Header: &cmttypes.Header{Height: h}}}
-	if _, err := verifyBlockResults(provided, symx.Bytes("resultsHash", 32), lb); err != nil {
-		symx.Cover("verify-rejected")
-	}
+	// (no cover point on the outcome: whether the symbolic hash equals the modelled hash of the results cannot be
+	// reproduced by a native replay, which computes the real hash; the subject here is only that it does not crash)
+	_, _ = verifyBlockResults(provided, symx.Bytes("resultsHash", 32), lb)
 	symx.Cover("end")
 }
